@@ -100,7 +100,18 @@ def build(case, **kw):
 
 # ---- observations ------------------------------------------------------------------------------------
 
+def safe_si(q):
+    """uq.si_value, but a non-finite stored number stays a float (inf / nan) instead of raising."""
+    import math
+    sc = si.si_scale(uq.sys_of(q.units), uq.dim_of(q.units))
+    if isinstance(q, UnitValue):
+        return F(q.value) * sc if math.isfinite(q.value) else float(q.value)
+    return [F(float(x)) * sc if math.isfinite(float(x)) else float(x) for x in q.value]
+
+
 def rel_err(got, exact):
+    if isinstance(got, float) or isinstance(exact, float):      # a non-finite number somewhere
+        return 0.0 if (got == exact) else float("inf")
     if exact == 0:
         return 0.0 if got == 0 else float("inf")
     return float(abs(F(got) / exact - 1))
@@ -109,7 +120,7 @@ def rel_err(got, exact):
 def raw_state(system):
     """(list of exact SI amounts, units, raw float list) of RDSystem.state."""
     st = system.state
-    return uq.si_value(st), (uq.sys_of(st.units), uq.dim_of(st.units)), [float(x) for x in st.value]
+    return safe_si(st), (uq.sys_of(st.units), uq.dim_of(st.units)), [float(x) for x in st.value]
 
 
 def raw_chem(system):
@@ -160,6 +171,12 @@ def check_defaults(case, system, out, stats, site="default"):
         for idx, (exact, route) in enumerate(ref):
             s, c = divmod(idx, nc)
             stats["route_" + route] = stats.get("route_" + route, 0) + 1
+            if case.get("skip_nonnormal") and not D.is_normal_double(exact):
+                # the TRUE amount over/underflows a double: nothing is specified for it
+                stats["entries_skipped_true_amount_not_a_normal_double"] = stats.get("entries_skipped_true_amount_not_a_normal_double", 0) + 1
+                continue
+            if case.get("skip_nonnormal") and exact != 0:
+                stats["extreme_entries_compared"] = stats.get("extreme_entries_compared", 0) + 1
             err = rel_err(vals[idx], exact)
             if not err <= TOL and route not in reported:
                 reported.add(route)         # one report per lookup route and system
@@ -223,7 +240,7 @@ def getter_pass(case, net, system, out, stats, forms="all", rot=0, tag="default"
                     elif uq.dim_of(g.units) != (0, 0, 1):
                         k = ("C13:get_state:%s:dimension" % site, "get_state returned units %s" % g.units)
                     else:
-                        gv = uq.si_value(g)
+                        gv = safe_si(g)
                         same = (gv == vals[idx]) if uq.sys_of(g.units) == usys else (rel_err(gv, vals[idx]) <= TOL)
                         k = None if same else (
                             "C13:get_state:%s:wrong-entry" % site,
@@ -752,7 +769,134 @@ def _history(case, out, stats):
         hist_sync(fmodel, fnet0, fsys0, out, stats, "%s:original" % hname)
 
 
-_SUBS = {"history": _case_history, "dict": _case_dict, "default": _case_default, "access": _case_access, "ops": _case_ops, "regen": _case_regen,
+def _case_magnitude(case, out, stats):
+    """Densities of extreme but valid magnitude in a length unit far from the network's: the default
+    amount (at construction, or after editing the densities + set_default_state()) is still
+    density x volume whenever that exact amount is a normal double."""
+    if case["mode"] == "construct":
+        net, space, system = build(case)
+        check_defaults(case, system, out, stats, site="magnitude")
+    else:
+        plain = dict(case)
+        plain["species"] = [dict(sp, density=3 + i) for i, sp in enumerate(case["species"])]
+        net, space, system = build(plain)
+        for sp in case["species"]:
+            system.network.get_species(sp["label"]).density = mk_spec(sp["density"])
+        system.set_default_state()
+        check_defaults(case, system, out, stats, site="magnitude:regenerate")
+    getter_pass(case, net, system, out, stats, forms="one", tag="magnitude")
+
+
+CARRIERS = ("ndarray", "tuple", "list", "object", "index")
+CARRIER_DTYPES = ("int8", "uint8", "int16", "int32", "int64")
+
+
+def carrier_pos(carrier, dtype, x, y, z, c):
+    """The position (x, y, z) / linear index c held in numpy integers of the given dtype, or None when a
+    value does not fit the dtype."""
+    info = np.iinfo(dtype)
+    vals = (c,) if carrier == "index" else (x, y, z)
+    if any(v < info.min or v > info.max for v in vals):
+        return None
+    dt = np.dtype(dtype).type
+    if carrier == "ndarray":
+        return np.array([x, y, z], dtype=dtype)
+    if carrier == "tuple":
+        return (dt(x), dt(y), dt(z))
+    if carrier == "list":
+        return [dt(x), dt(y), dt(z)]
+    if carrier == "object":
+        return Pos(dt(x), dt(y), dt(z))
+    return dt(c)
+
+
+def _case_carrier(case, out, stats):
+    """Coordinates / linear indices carried by numpy integers of several widths: an accessor that ACCEPTS
+    such a position must hit exactly entry species*n + z*w*h + y*w + x (a rejection is only counted)."""
+    import warnings
+    net, space, system = build(case)
+    sp = case["space"]
+    w, h = sp["w"], sp["h"]
+    nsp, nc = len(case["species"]), D.ncells(case)
+    n = nsp * nc
+    carrier, dtype = case["carrier"], case["dtype"]
+    system.state = UnitArray([float(i + 1) for i in range(n)], "molecule")
+    system.chemostats = [0] * n
+    sscale = si.si_scale(uq.sys_of(system.state.units), (0, 0, 1))
+    wscale = si.si_scale(D.USYS[case["sys_us"]], (0, 0, 1))
+    raw = np.array(system.state.value, dtype=float)
+    bad = set()
+
+    def report(acc, cls, what):
+        key = "C13:carrier:%s:%s:%s:%s" % (acc, carrier, dtype, cls)
+        if key not in bad:
+            bad.add(key)
+            out.append((key, what))
+
+    def rejected(acc):
+        stats["carrier_rejected_" + acc] = stats.get("carrier_rejected_" + acc, 0) + 1
+
+    with warnings.catch_warnings():
+        warnings.simplefilter("ignore")
+        for c in range(nc):
+            x, y, z = D.cell_coords(c, w, h)
+            s = (c + c // w) % nsp
+            idx = D.state_index(s, c, nc)
+            sfn, sfv = species_forms(net, s)[c % 3]
+            where = "species %d by %s, cell (%d,%d,%d) = %d as %s of %s on %dx%dx%d" % (s, sfn, x, y, z, c, carrier, dtype, w, h, sp["d"])
+            pos = carrier_pos(carrier, dtype, x, y, z, c)
+            if pos is None:
+                stats["carrier_value_does_not_fit"] = stats.get("carrier_value_does_not_fit", 0) + 1
+                continue
+            stats["carrier_addresses"] = stats.get("carrier_addresses", 0) + 1
+            # get_state
+            try:
+                g = system.get_state(sfv, carrier_pos(carrier, dtype, x, y, z, c))
+            except Exception:
+                rejected("get_state")
+            else:
+                if uq.si_value(g) != F(float(raw[idx])) * sscale:
+                    report("get_state", "wrong-entry", "get_state(%s) = %s; state[%d*%d+%d] = %r molecule" % (where, g, s, nc, c, float(raw[idx])))
+            # get_chemostat on a one-hot map installed through plain python ints
+            system.set_chemostat(s, c, 1)
+            try:
+                f = system.get_chemostat(sfv, carrier_pos(carrier, dtype, x, y, z, c))
+            except Exception:
+                rejected("get_chemostat")
+            else:
+                if int(f) != 1:
+                    report("get_chemostat", "wrong-entry", "get_chemostat(%s) = %r although chemostats[%d*%d+%d] is the only flag set" % (where, f, s, nc, c))
+            system.set_chemostat(s, c, 0)
+            # set_state
+            v = 5000.5 + idx
+            try:
+                system.set_state(sfv, carrier_pos(carrier, dtype, x, y, z, c), v)
+            except Exception:
+                rejected("set_state")
+            else:
+                after = np.array(system.state.value, dtype=float)
+                changed = [int(i) for i in np.nonzero(after != raw)[0]]
+                ok = changed == [idx] and rel_err(F(float(after[idx])) * sscale, F(v) * wscale) <= TOL
+                if not ok:
+                    report("set_state", "wrong-entry", "set_state(%s, %r) changed raw entries %r, expected [%d]" % (where, v, changed, idx))
+                system.state = UnitArray([float(i + 1) for i in range(n)], "molecule")
+                raw = np.array(system.state.value, dtype=float)
+            # set_chemostat
+            try:
+                system.set_chemostat(sfv, carrier_pos(carrier, dtype, x, y, z, c), 1)
+            except Exception:
+                rejected("set_chemostat")
+            else:
+                chem = np.array(system.chemostats)
+                changed = [int(i) for i in np.nonzero(chem != 0)[0]]
+                if changed != [idx]:
+                    report("set_chemostat", "wrong-entry", "set_chemostat(%s, 1) set raw flags %r, expected [%d]" % (where, changed, idx))
+                system.chemostats = [0] * n
+            stats["getter_calls"] = stats.get("getter_calls", 0) + 2
+            stats["set_calls"] = stats.get("set_calls", 0) + 2
+
+
+_SUBS = {"magnitude": _case_magnitude, "carrier": _case_carrier, "history": _case_history, "dict": _case_dict, "default": _case_default, "access": _case_access, "ops": _case_ops, "regen": _case_regen,
          "override": _case_override}
 
 
@@ -1254,9 +1398,70 @@ def sp_history(tier):
     return name, seeds, expand
 
 
-SPACE_BUILDERS = [sp_shapes, sp_layout, sp_units, sp_access, sp_set1, sp_set2, sp_regen, sp_dict, sp_history]
+MAGNITUDES = ["1e-300", "1e-200", "1e-30", "1", "1e30", "1e200", "1e300"]
+MANTISSAS = ["1", "2.5"]
+LENGTHS = ["µm", "km", "fm", "nm", "dm"]
+
+
+def sp_magnitude(tier):
+    seeds = []
+    for ls in LENGTHS:
+        for lv in LENGTHS:
+            for ln in ("µm", "km", "fm"):
+                for mag in MAGNITUDES:
+                    for man in MANTISSAS:
+                        for kind in ("grid", "graph"):
+                            for mode in ("construct", "regenerate"):
+                                seeds.append((ls, lv, ln, mag, man, kind, mode))
+
+    def expand(seed):
+        ls, lv, ln, mag, man, kind, mode = seed
+        e = mag[1:] if mag != "1" else "e0"
+        v = float(man + e)
+        us_s, us_v, us_n = D.LENGTH_US[ls], D.LENGTH_US[lv], D.LENGTH_US[ln]
+        other = D.LENGTH_US[LENGTHS[(LENGTHS.index(lv) + 2) % len(LENGTHS)]]
+        species = [{"label": "Ab", "us": us_s, "density": v, "chstt": False},
+                   {"label": "A", "us": us_v, "density": {"in": ["str", 2 * v, "molecule/%s3" % ls], "default": 3 * v if ls == lv else 3.0},
+                    "chstt": {"in": True}}]
+        if kind == "grid":
+            space = {"type": "grid", "w": 2, "h": 1, "d": 1, "env": [0, 1], "vol": 4}
+        else:
+            space = {"type": "graph", "nodes": [{"vol": 2, "env": 0, "us": us_v}, {"vol": ["str", 3, "%s3" % lv], "env": 1, "us": other}]}
+        return {"sub": "magnitude", "mode": mode, "skip_nonnormal": True, "envs": ["out", "in"], "species": species, "net_us": us_n,
+                "sys_us": 0, "space": space, "space_us": us_v if kind == "grid" else other}
+    name = ("magnitude: densities {1, 2.5} x 10^{-300, -200, -30, 0, 30, 200, 300} molecule per (length unit)^3 (bare and text) x species "
+            "length unit {µm, km, fm, nm, dm} x space / node length unit (same 5) x network length unit {µm, km, fm} x {grid, graph} x "
+            "{at construction, after editing the densities + set_default_state()}; entries whose EXACT amount is not a normal double "
+            "are skipped and counted")
+    return name, seeds, expand
+
+
+CARRIER_GRIDS = [(6, 7, 8), (8, 8, 8), (4, 5, 7)]
+
+
+def sp_carrier(tier):
+    seeds = [(g, ca, dt) for g in CARRIER_GRIDS for ca in CARRIERS for dt in CARRIER_DTYPES]
+
+    def expand(seed):
+        (w, h, d), ca, dt = seed
+        n = w * h * d
+        roles = (0, 0, 0, 0, 0)
+        netp = network_part(["", "in"], ["full", "partial+default"], ["partial", "full"], roles)
+        for i, spc in enumerate(netp["species"]):
+            spc["us"] = 0
+        c = merge_case("carrier", netp, grid_space(w, h, d, [(3 * i + i // 7) % 2 for i in range(n)], roles, form="bare"),
+                       carrier=ca, dtype=dt)
+        return c
+    name = ("carrier: grids 6x7x8, 8x8x8, 4x5x7 x 2 species, EVERY cell addressed by {numpy array, tuple / list / x,y,z object of numpy "
+            "scalars, numpy scalar linear index} of dtype {int8, uint8, int16, int32, int64} (where the values fit the dtype) through "
+            "get_state / get_chemostat / set_state / set_chemostat: an accepted position must hit entry species*n + z*w*h + y*w + x "
+            "(rejections are counted, not reported)")
+    return name, seeds, expand
+
+
+SPACE_BUILDERS = [sp_shapes, sp_layout, sp_units, sp_access, sp_set1, sp_set2, sp_regen, sp_dict, sp_history, sp_magnitude, sp_carrier]
 CHUNK = {"sp_shapes": 400, "sp_layout": 60, "sp_units": 60, "sp_access": 2, "sp_set1": 400, "sp_set2": 300, "sp_regen": 60,
-         "sp_override": 40, "sp_dict": 60, "sp_history": 12}
+         "sp_override": 40, "sp_dict": 60, "sp_history": 12, "sp_magnitude": 150, "sp_carrier": 1}
 
 _SPACES = None
 
@@ -1267,6 +1472,10 @@ def _nontrivial(case, stats):
         return stats.get("state_entries_changed", 0) + stats.get("flags_flipped", 0) > 0
     if sub == "history":
         return len(case["ops"]) > 0
+    if sub == "magnitude":
+        return stats.get("extreme_entries_compared", 0) > 0
+    if sub == "carrier":
+        return stats.get("carrier_addresses", 0) > 0
     if sub in ("regen", "override", "access", "dict"):
         return True
     # default: something other than a scalar applied everywhere in default units
